@@ -34,6 +34,7 @@ structure State where
   pw : List (Nat × String) := []                 -- userspasswordv1: id ↦ (the password the stored hash was made of)
   toks : List (Nat × TokRec) := []               -- authorizationsv1
   sess : List (String × (Nat × Bool)) := []      -- session index: key ↦ (user, ExpiresAt in the past)
+  handles : List (String × Nat) := []            -- harness: session objects kept from CreateSession: key ↦ user
   nextUser : Nat := 2001
   nextTok : Nat := 5001
   nextKey : Nat := 1
@@ -144,7 +145,7 @@ def createSession (s : State) (name : String) (long : Bool) : State × Ans :=
   | none => (s, .err .nf)
   | some (uid, _) =>
     let key := "s" ++ toString s.nextKey
-    let s := { s with nextKey := s.nextKey + 1 }
+    let s := { s with nextKey := s.nextKey + 1, handles := KV.put s.handles key uid }
     -- inmem.SessionStore drops an entry whose expiry is already in the past
     if long || s.cfgB then ({ s with sess := KV.put s.sess key (uid, !long) }, .okKey key uid)
     else (s, .okKey key uid)
@@ -153,6 +154,21 @@ def expireSession (s : State) (key : String) : State × Ans :=
   match KV.get s.sess key with
   | none => (s, .err .nf)
   | some _ => ({ s with sess := KV.del s.sess key }, .ok)
+
+/-- session/service.go `RenewSession` → storage.go `RefreshSession` with a session object obtained
+    earlier: the record is RE-READ by id; a session that ended in the meantime (ExpireSession, store TTL)
+    is "not found" and nothing is written. Otherwise the expiry is extended when the new one is later
+    (the record and its key index are re-created from the stored record). -/
+def renewSession (s : State) (key : String) (far : Bool) : State × Ans :=
+  if s.cfgB then (s, .err .unsupported)
+  else match KV.get s.handles key with
+    | none => (s, .err .nohandle)
+    | some _ =>
+      match KV.get s.sess key with
+      | none => (s, .err .nf)
+      | some (u, expired) =>
+        -- 1 h sessions: only `far` extends; a record whose expiry lies in the past is extended by both
+        if far || expired then ({ s with sess := KV.put s.sess key (u, false) }, .ok) else (s, .ok)
 
 /-! ### the request -/
 
@@ -219,6 +235,7 @@ def step (s : State) : Op → State × Ans
   | .dt i => deleteTok s i
   | .cs n l => createSession s n l
   | .xs k => expireSession s k
+  | .renew k far => renewSession s k far
   | .req h c => (s, serve s h c)
   | .phc ds v m p q => (s, .phc (phcMatch ds v m p q))
 
